@@ -463,11 +463,19 @@ DynDeep ==
 FamPoolsDyn(K, CH) ==
   UNION { {Scn(WithPools(gr, pa), <<BX(SetToSeq(AllOutsG(gr)), j, 1, [fail |-> <<>>]), Build(SetToSeq(AllOutsG(gr)), 2, 1)>>) :
               j \in {1, 2, 3}, pa \in RandomSubset(K + 1, [1..Len(gr.stmts) -> {"", "p1", "p2", "console"}])} : gr \in DynGraphs }
+\* restat pruning across a dyndep file that is still pending: a restat statement leaves its output alone, the producer of
+\* the dyndep file and the statement bound to that file are out of date only through that output
+DynRestatGraphs ==
+  { Graph(<< [St1(1, <<"o1">>, <<"s1">>, <<>>) EXCEPT !.restat = TRUE],
+             [St1(2, <<"dd">>, <<"o1">>, <<>>) EXCEPT !.mkdd = "dd"],
+             [St1(3, <<"o3">>, ex3, <<"dd">>) EXCEPT !.dd = "dd", !.ddi = <<"s2">>, !.restat = r3],
+             St1(4, <<"o4">>, <<"o3">>, <<>>) >>) : ex3 \in {<<"o1">>, <<"o1", "s2">>}, r3 \in BOOLEAN }
 DynVariants(gr) == {gr} \cup {[gr EXCEPT !.stmts = [i \in DOMAIN gr.stmts |-> IF i = k /\ gr.stmts[i].mkdd = "" THEN [gr.stmts[i] EXCEPT !.restat = TRUE] ELSE gr.stmts[i]]] : k \in DOMAIN gr.stmts}
 FamDyn(K, CH) ==
   UNION { {ScnT(gr, <<Build(Roots(gr), j, 1), c, Build(Roots(gr), j, 1), Build(Roots(gr), j, 1)>>, "dyn") : j \in {1, 2, 3}, c \in Pick(CH, Changes(gr))}
           \cup {ScnT(gr, <<Build(<<t>>, 2, 1), c, Build(Roots(gr), 2, 1), Build(Roots(gr), 2, 1)>>, "dyn") : t \in Pick(2, AllOutsG(gr)), c \in Pick(CH, Changes(gr))} :
           gr \in UNION {DynVariants(x) : x \in DynGraphs} }
+  \cup UNION { {ScnT(gr, <<Build(Roots(gr), j, 1), [op |-> o, f |-> "s1"], Build(Roots(gr), j, 1), Build(Roots(gr), j, 1)>>, "dyn") : j \in {1, 2}, o \in {"touch", "edit"}} : gr \in DynRestatGraphs }
   \cup {ScnT(DynDeep, <<Build(<<"out">>, j, 1), c, Build(<<"out">>, j, 1), Build(<<"out">>, j, 1), Build(Roots(DynDeep), 2, 1)>>, "dyn") :
           j \in {1, 2}, c \in {x \in Changes(DynDeep) : x.op \in {"touch", "edit"}}}
 
@@ -664,6 +672,10 @@ FamLogs(K, CH) ==
   UNION { UNION { {Scn(gr, <<Build(Roots(gr), 2, 1), [op |-> "inflate"], Build(Roots(gr), 2, 1), c, Build(Roots(gr), 2, 1), Build(Roots(gr), 2, 1)>>) : c \in Pick(CH, ChangesET(gr))} :
                   gr \in GraphsS(sh, {"plain", "restat", "gcc", "msvc", "depfile", "restatgcc", "two"}, K) } :
           sh \in {"chain2", "fanin", "fanout", "implicit", "mixed"} }
+\* the tools asked for several outputs of one statement at once (a statement is one command, however many of its outputs are reached)
+FamToolsTwo(K, CH) ==
+  UNION { {Scn(gr, <<ToolsOp(gr.stmts[i].outs \o gr.stmts[i].iouts \o Roots(gr))>>) : i \in {j \in Cmds(gr) : Len(gr.stmts[j].outs) + Len(gr.stmts[j].iouts) > 1}} :
+          gr \in UNION {GraphsS(sh, {"two", "plain", "iout"}, K) : sh \in {"chain2", "fanout", "fanin", "chain3"}} }
 FamToolsLogs(K, CH) ==
   UNION { {Scn(gr, <<Build(Roots(gr), 2, 1), [op |-> "inflate"], ToolsOp(Roots(gr)), Build(Roots(gr), 2, 1), Build(Roots(gr), 2, 1)>>)} :
           gr \in UNION {GraphsS(sh, {"plain", "gcc", "msvc", "restatgcc"}, K) : sh \in {"chain2", "fanin", "fanout"}} }
@@ -707,6 +719,7 @@ Family(name) ==
     [] name = "crash" -> FamCrash(ParK, ParCH)
     [] name = "status" -> FamStatus(ParK, ParCH)
     [] name = "tools" -> FamTools(ParK, ParCH)
+    [] name = "toolstwo" -> FamToolsTwo(ParK, ParCH)
     [] name = "logs" -> FamLogs(ParK, ParCH)
     [] name = "toolslogs" -> FamToolsLogs(ParK, ParCH)
 
